@@ -140,7 +140,7 @@ data are numbers here):
    the transaction, so an error at the next statement leaves the cache with *no* users —
    neither its previous nor its new content;
 3. the signed-row loop does not test `rows.Err()`: a read error after the first row commits a
-   cache in which record (1,1) is new and record (2,1) is still the old one. -/
+   cache in which record (2,1) is new and record (1,1) is still the old one. -/
 theorem c15_unfixed_counterexample :
     ((runOpsOld (State.init : State Nat Nat Nat)
         [.save 1 7, .saveSigned 1 1 ⟨9, 5500⟩, .sync ⟨false, false⟩ none,
@@ -158,11 +158,11 @@ theorem c15_unfixed_counterexample :
     ((runOpsOld (State.init : State Nat Nat Nat)
         [.saveSigned 1 1 ⟨10, 5500⟩, .saveSigned 2 1 ⟨20, 5500⟩, .sync ⟨false, false⟩ none,
          .saveSigned 1 1 ⟨11, 5500⟩, .saveSigned 2 1 ⟨21, 5500⟩,
-         .sync ⟨false, false⟩ (some 9)]).cache.signed (1, 1) = some ⟨11, 5500⟩ ∧
+         .sync ⟨false, false⟩ (some 9)]).cache.signed (2, 1) = some ⟨21, 5500⟩ ∧
      (runOpsOld (State.init : State Nat Nat Nat)
         [.saveSigned 1 1 ⟨10, 5500⟩, .saveSigned 2 1 ⟨20, 5500⟩, .sync ⟨false, false⟩ none,
          .saveSigned 1 1 ⟨11, 5500⟩, .saveSigned 2 1 ⟨21, 5500⟩,
-         .sync ⟨false, false⟩ (some 9)]).cache.signed (2, 1) = some ⟨20, 5500⟩) := by
+         .sync ⟨false, false⟩ (some 9)]).cache.signed (1, 1) = some ⟨10, 5500⟩) := by
   decide
 
 /-- the repaired code on the first of these histories: the cache mirrors the deletions -/
